@@ -175,4 +175,4 @@ def _first_diff(a, b):
 def streams(tier):
     n = 8 if tier == 'quick' else 12
     return [Stream('both-schedulers', check, strategy=lambda: c06_case(max_tasks=n),
-                   examples={'quick': 3000, 'thorough': 50000})]
+                   examples={'quick': 5000, 'thorough': 60000})]
